@@ -36,6 +36,10 @@ CLAIMED = {
         text="For each specification call under contract two obligation kinds are proved: 'raises' (the call ends in raise exactly for the malformed inputs named by the property: wrong sizes, any negative entry, correlation outside [0,1], non-unit correlation diagonal, duplicate or unknown source names, unknown parameter names incl. mixed known/unknown keyword sets, missing or non-numeric limits, Poisson data with a negative or non-integer entry, unsorted bin edges, wrong-dimensional histogram heights or fill data, unknown axis names, out-of-range confidence levels) and 'exc.frame' (on every raising path the object's abstract view equals its pre-state; NexusFitter.set_fit_parameter_values raises before any node or minimizer value is touched). Functions: SimpleGaussianError.__init__ and error/error_rel setters, MatrixGaussianError._calculate_cov_mat_from_cor_mat_and_error_array, DataContainerBase._add_error_object, disable_error/enable_error, XYContainer._find_axis_raise, HistContainer.rebin/set_bins/fill, ConfidenceLevel.__init__ and setters, CostFunction_NegLogLikelihood.is_data_compatible, NexusFitter.set_fit_parameter_values, FitBase.add_parameter_constraint/limit_parameter.",
         note="Trusted: np.allclose as an opaque 'unit diagonal' predicate, value-copy models of np.array/asarray, float() succeeds exactly on numbers, python dict/set semantics on concrete key sets, backend and node assignments recorded as external calls. Open known finding KF-C19-1 (Nexus.add with 'replace' leaves a cycle-closing replacement in place). Bounded only (native, 310 call/variant/age combinations with before/after observable comparison): FitBase.__init__ reserved names, FitBase.data setter rollback, HistContainer.__init__, GaussianMatrixParameterConstraint.__init__, node names, Nexus.add/add_dependency/add_alias.",
         ref="3 C19"),
+    "C01": dict(
+        text="The cost is decomposed along its anchors and each piece is verified on the real source: CostFunction.__call__ for every built-in configuration (loop invariant over the constraint list: result = handle(core arguments) + the cost of EVERY constraint + the log-determinant when present, nothing else); CostFunction_Chi2._chi2 on its QR, Cholesky, pointwise and no-error paths incl. the documented fallbacks and raise conditions, identified with r^T V^-1 r through Lean/Mathlib lemmas; log_determinant_cholesky/qr/pointwise = ln det V; the four negative log-likelihood statics; both constraint cost methods; XYFit._project_cov_mat/_project_error and the central-difference model slope; the two total = model + data lambdas registered in the graph; FitBase._on_error_change (every basic error node marked, implicit no-error chi2 replaced by the covariance chi2, re-registered and re-targeted) and the FitBase.data setter wiring BOTH the data container and the parametric model to it - which is what 'no declared source is silently ignored, also when a model-referenced source is the first or only one' rests on.",
+        note="Trusted: Lean lemmas as axioms over uninterpreted linear algebra (checked by `lean` in the thorough tier); numpy/scipy contracts for qr, cholesky, solve_triangular, inner/dot/sum/log and the log densities; cost handle pure; node values delivered by the graph (C04); per-container totals (C02); floats as reals with NaN guards never firing. Open known finding KF-C01-1 (HistFit density=True with a model-relative source, a FIXME in the code). Bounded/enumerated only (native, 640 configurations): end-to-end cost of real fits of all four types against an independent formula implementation, the typed wiring table of cost arguments for every fit type x cost identifier, and 'every error-reading node below the cost is in the marked set'.",
+        ref="3 C01"),
 }
 
 NOT_APPLICABLE = {
